@@ -681,8 +681,8 @@ def decode_graph(m: int, ebits: list) -> list | None:
 #  4 barrier on a pair        5 block [A(0,1) B(1)] on an ordered pair
 #  6 block [A(0) B(1)] (single-qudit gates only) on a pair   7 barrier on all qudits
 #  8 TG on a sorted pair      9 TG on a sorted triple   (PAM: blocks made by partitioners have sorted locations)
-ARITY = {1: 1, 2: 2, 3: 3, 4: 2, 5: 2, 6: 2, 7: 0, 8: 2, 9: 3}
-ORDERED = {1: True, 2: True, 3: True, 4: False, 5: True, 6: False, 7: True, 8: False, 9: False}
+ARITY = {1: 1, 2: 2, 3: 3, 4: 2, 5: 2, 6: 2, 7: 0, 8: 2, 9: 3, 10: 4}      # 10: 4-qudit gate on increasing qudits
+ORDERED = {1: True, 2: True, 3: True, 4: False, 5: True, 6: False, 7: True, 8: False, 9: False, 10: False}
 
 
 def _tg(tags: list, ar: int) -> tuple:
@@ -693,7 +693,7 @@ def _tg(tags: list, ar: int) -> tuple:
 
 def add_op(circ: Circuit, code: int, loc: list, tags: list) -> None:
     n = circ.num_qudits
-    if code in (1, 2, 3, 8, 9):
+    if code in (1, 2, 3, 8, 9, 10):
         g, ps = _tg(tags, len(loc))
         circ.append_gate(g, loc, ps)
     elif code == 4:
@@ -727,6 +727,14 @@ def decode_ops(n: int, nops: int, xs: list) -> list:
         code = menu[rt.P(c, 0, len(menu) - 1)]
         loc: list = []
         qs = [q0, q1, q2]
+        if ARITY[code] > 3:
+            # wide gate on increasing qudits: the (at most 3) qudits LEFT OUT are what is chosen
+            out: list = []
+            for j in range(n - ARITY[code]):
+                cands = list(range(out[-1] + 1 if out else 0, n - (n - ARITY[code] - 1 - j)))
+                out.append(cands[0] if len(cands) == 1 else cands[rt.P(qs[j], 0, len(cands) - 1)])
+            spec.append((code, [q for q in range(n) if q not in out]))
+            continue
         for j in range(ARITY[code]):
             if ORDERED[code]:
                 cands = [q for q in range(n) if q not in loc]
@@ -734,7 +742,7 @@ def decode_ops(n: int, nops: int, xs: list) -> list:
                 cands = list(range(n - ARITY[code] + 1))
             else:
                 cands = list(range(loc[-1] + 1, n - (ARITY[code] - 1 - j)))
-            loc.append(cands[rt.P(qs[j], 0, len(cands) - 1)])
+            loc.append(cands[0] if len(cands) == 1 else cands[rt.P(qs[j], 0, len(cands) - 1)])
         spec.append((code, loc))
     return spec
 
@@ -961,6 +969,8 @@ def obligations(tier: str) -> list[dict]:
         fam(4, 4, 1, [2, 3, 5, 7], Q, T, split=1)
         fam(4, 4, 2, [2], Q, T, split=1, max_edges=3)
         fam(4, 4, 3, [2], Q, T, edges=LINE4)
+        # a 4-qudit operation in a 5-qudit circuit on every 5-qudit tree (two coupled pairs are not a connected place)
+        fam(5, 5, 1, [10], Q, T, max_edges=4)
         esc('routing-fwd/line4/T(0,3)', T, [[2, [0, 3]]], 'routing-fwd', LINE4, fixed=6)
         esc('layout-bwd/line4/T(1,2)T(0,3)', T, [[2, [1, 2]], [2, [0, 3]]], 'layout-bwd', LINE4, fixed=6)
         esc('routing-fwd/line4/T(0,1,3)', T, [[3, [0, 1, 3]]], 'routing-fwd', LINE4, fixed=13)
@@ -983,6 +993,8 @@ def obligations(tier: str) -> list[dict]:
         T = 3000
         LINE5 = [[0, 1], [1, 2], [2, 3], [3, 4]]
         fam(2, 2, 3, ALL, F, T)
+        fam(5, 5, 1, [10], F, T, max_edges=4)
+        fam(5, 5, 2, [10, 2], Q, T, split=1, max_edges=4)
         fam(2, 5, 2, [2, 5], F, T, split=1)
         fam(3, 3, 3, [2, 3, 5], F, T, split='op0')
         fam(3, 4, 2, ALL, F, T, split='op0')
